@@ -104,7 +104,7 @@ Ltac norm_hyps :=
 Ltac reads := repeat (rewrite upd_same || rewrite upd_other by congruence).
 Ltac unfold_prims :=
   cbn [do_scal do_axpy do_copy do_fill run_ps run_p fallback_scal fallback_axpy fallback_copy pid aug_fn pcval
-       blas_axpy blas_scal bi_view bi_call].
+       blas_axpy blas_scal bi_view bi_call]; unfold blas_write; cbn [bi_full].
 
 (* the outcome is Ok, [out] holds the entry-wise result (converted by [cast]) of
    the INITIAL operands, every other buffer is unchanged *)
@@ -190,7 +190,7 @@ Proof.
 Qed.
 
 Definition bi_ok (r : regime) (bi : blasinfo) : Prop :=
-  r = Blas -> bi_view bi = true /\ bi_call bi = true.
+  r = Blas -> bi_view bi = true /\ bi_call bi = true /\ bi_full bi = true.
 
 Lemma tree_no_rec (rc : env T -> store T -> outcome T) (r : regime) (bi : blasinfo) a b (i1 i2 io : nat) (s : store T) :
   r <> Direct -> bi_ok r bi -> ~ (i1 = i2 /\ b <> nzero) ->
@@ -207,7 +207,7 @@ Proof.
     all: unfold_prims.
     all: use_eqs.
     all: finish L12 Lo.
-  - destruct bi as [bv bc]. destruct (Hbi eq_refl) as [Hv Hc]. cbn in Hv, Hc. subst bv bc.
+  - destruct bi as [bv bc bf bn]. destruct (Hbi eq_refl) as (Hv & Hc & Hf). cbn in Hv, Hc, Hf. subst bv bc bf.
     split_ids.
     all: repeat split_if.
     all: unfold_prims.
@@ -302,30 +302,37 @@ Proof. destruct o as [s' | | |]; cbn; [eauto | tauto | tauto | tauto]. Qed.
 Lemma blas_applicable_native (d : dtinfo) (size : Z) (flags : list (bool * bool)) :
   blas_applicable true d size flags = true -> native_blas d = true.
 Proof.
-  unfold blas_applicable. destruct d as [c n]. unfold native_blas, dt_char_in. cbn [dt_native dt_char negb].
+  unfold blas_applicable. destruct d as [c n l0]. unfold native_blas, dt_char_in. cbn [dt_native dt_char negb].
   repeat match goal with |- context [existsb ?f ?l] => destruct (existsb f l) end;
   destruct n; cbn [andb negb orb];
   repeat match goal with |- context [if ?b then _ else _] => destruct b end;
   intros E; try discriminate E; reflexivity.
 Qed.
 
-Lemma blas_regime_sound (size : Z) (fl : bool) (bdt : dtinfo) (f1 f2 fo : bool * bool) :
-  regime_of size fl (blas_applicable true bdt size [f1; f2; fo]) = Blas ->
-  bi_view (@blas_info bdt [f1; f2; fo]) = true /\ bi_call (@blas_info bdt [f1; f2; fo]) = true.
+(* the vector length handed to BLAS (and used by the dispatch) is the number of entries: a fact about the
+   regenerated `size = ...` statement (len(x1) would be the length of axis 0 only) *)
+Lemma vector_length_is_size (total len0 : Z) : size_of size_expr total len0 = total.
+Proof. reflexivity. Qed.
+
+Lemma blas_regime_sound (total : Z) (fl : bool) (bdt : dtinfo) (f1 f2 fo : bool * bool) :
+  let size := size_of size_expr total (dt_len0 bdt) in
+  regime_of size fl (blas_applicable true bdt total [f1; f2; fo]) = Blas ->
+  bi_view (@blas_info bdt [f1; f2; fo] size total) = true /\ bi_call (@blas_info bdt [f1; f2; fo] size total) = true
+  /\ bi_full (@blas_info bdt [f1; f2; fo] size total) = true.
 Proof.
-  intros Hr.
-  assert (Ha : blas_applicable true bdt size [f1; f2; fo] = true).
-  { revert Hr. unfold regime_of. destruct (blas_applicable true bdt size [f1; f2; fo]); [reflexivity|].
+  intros size Hr. unfold size in *. rewrite vector_length_is_size in *.
+  assert (Ha : blas_applicable true bdt total [f1; f2; fo] = true).
+  { revert Hr. unfold regime_of. destruct (blas_applicable true bdt total [f1; f2; fo]); [reflexivity|].
     repeat match goal with
     | |- context [Z.ltb ?x ?y] => destruct (Z.ltb x y)
     | |- context [Z.leb ?x ?y] => destruct (Z.leb x y)
     | |- context [Z.gtb ?x ?y] => destruct (Z.gtb x y)
     | |- context [Z.geb ?x ?y] => destruct (Z.geb x y)
     end; destruct fl; cbn; intros E; discriminate E. }
-  pose proof (blas_applicable_native bdt size _ Ha) as Hn.
+  pose proof (blas_applicable_native bdt total _ Ha) as Hn.
   revert Ha. unfold blas_applicable, blas_info, blas_ravel_order. rewrite Hn.
   destruct f1 as [c1 g1], f2 as [c2 g2], fo as [co go].
-  cbn [nth forallb existsb fst snd bi_view bi_call negb].
+  cbn [nth forallb existsb fst snd bi_view bi_call bi_full negb]. rewrite Z.eqb_refl.
   repeat match goal with
   | |- context [Z.gtb ?x ?y] => destruct (Z.gtb x y)
   | |- context [Z.ltb ?x ?y] => destruct (Z.ltb x y)
@@ -341,11 +348,11 @@ Lemma lincomb_impl_correct {T} {N : Num T} {F : NumField T}
           /\ forall j, j <> io -> s' j = s j.
 Proof.
   intros L12 Lo. unfold lincomb_impl, lincomb_impl_sz.
-  set (r := regime_of _ fl _).
-  assert (Hbi : bi_ok r (blas_info bdt [f1; f2; fo])).
+  cbv zeta. set (r := regime_of _ fl _). set (bi := blas_info bdt [f1; f2; fo] _ _).
+  assert (Hbi : bi_ok r bi).
   { intros Er. apply (blas_regime_sound (Z.of_nat (length (s i1))) fl bdt f1 f2 fo). exact Er. }
   destruct (post_ok _ _ _ _ _ _ _ _
-              (lincomb_fuel_correct r (blas_info bdt [f1; f2; fo]) a b i1 i2 io s Hbi L12 Lo))
+              (lincomb_fuel_correct r bi a b i1 i2 io s Hbi L12 Lo))
     as (s' & E & Hout & Hfr).
   exists s'. rewrite map_id in Hout. auto.
 Qed.
@@ -360,8 +367,9 @@ Lemma lincomb_impl_nonfloating {T} {N : Num T} {F : NumField T} (cast : T -> T) 
           /\ forall j, j <> io -> s' j = s j.
 Proof.
   intros L12 Lo. unfold lincomb_impl, lincomb_impl_sz.
-  assert (E : forall bo, regime_of (Z.of_nat (length (s i1))) false bo = Direct).
-  { intros bo. unfold regime_of. cbn [negb]. rewrite orb_true_r. reflexivity. }
+  cbv zeta.
+  assert (E : forall sz bo, regime_of sz false bo = Direct).
+  { intros sz bo. unfold regime_of. cbn [negb]. rewrite orb_true_r. reflexivity. }
   rewrite E. apply post_ok. apply direct_exact; assumption.
 Qed.
 
@@ -374,11 +382,11 @@ Lemma lincomb_impl_sz_correct {T} {N : Num T} {F : NumField T}
           /\ forall j, j <> io -> s' j = s j.
 Proof.
   intros L12 Lo. unfold lincomb_impl_sz.
-  set (r := regime_of _ fl _).
-  assert (Hbi : bi_ok r (blas_info bdt [f1; f2; fo])).
+  cbv zeta. set (r := regime_of _ fl _). set (bi := blas_info bdt [f1; f2; fo] _ _).
+  assert (Hbi : bi_ok r bi).
   { intros Er. apply (blas_regime_sound size fl bdt f1 f2 fo). exact Er. }
   destruct (post_ok _ _ _ _ _ _ _ _
-              (lincomb_fuel_correct r (blas_info bdt [f1; f2; fo]) a b i1 i2 io s Hbi L12 Lo))
+              (lincomb_fuel_correct r bi a b i1 i2 io s Hbi L12 Lo))
     as (s' & E & Hout & Hfr).
   exists s'. rewrite map_id in Hout. auto.
 Qed.
